@@ -100,6 +100,23 @@ func exportArgs(c rtCase) []string {
 	if c.Pretty {
 		a = append(a, "--pretty-print")
 	}
+	if c.Color && c.Path != "stdout" {
+		a = append(a, "--color")
+	}
+	return append(a, widthArgs(c.Width)...)
+}
+
+func widthArgs(w string) []string {
+	var a []string
+	if strings.Contains(w, "W") {
+		a = append(a, "--east-asian-encoding")
+	}
+	if strings.Contains(w, "S") {
+		a = append(a, "--count-diacritical-sign")
+	}
+	if strings.Contains(w, "A") {
+		a = append(a, "--count-format-code")
+	}
 	return a
 }
 
@@ -185,6 +202,12 @@ type dialCase struct {
 	SessDel string `json:"sess_delim"`
 	SessQ   bool   `json:"sess_enclose_all"`
 	SessN   bool   `json:"sess_without_header"`
+	SessC   bool   `json:"sess_color,omitempty"`
+	SessP   bool   `json:"sess_pretty,omitempty"`
+	SessJ   string `json:"sess_json_escape,omitempty"`
+	SessW   string `json:"sess_width,omitempty"`
+	// AttrPretty: ALTER TABLE .. SET PRETTY_PRINT TO TRUE before the edit (JSON / JSON Lines files)
+	AttrPretty bool `json:"attr_pretty,omitempty"`
 }
 
 func (dc dialCase) edited() rtCase {
@@ -261,6 +284,15 @@ func genDialect(t *rapid.T) dialCase {
 	dc.SessDel = fw.PickU(t, "sessdelim", []string{",", ";", "|", "\t"})
 	dc.SessQ = fw.Pct(t, "sessq", 50)
 	dc.SessN = fw.Pct(t, "sessn", 50)
+	dc.SessC = fw.Pct(t, "sessc", 40)
+	dc.SessP = fw.Pct(t, "sessp", 40)
+	dc.SessJ = fw.PickU(t, "sessj", []string{"", "BACKSLASH", "HEX", "HEXALL"})
+	for _, f := range []string{"W", "S", "A"} {
+		if fw.Pct(t, "sessw"+f, 20) {
+			dc.SessW += f
+		}
+	}
+	dc.AttrPretty = d.isJSON() && fw.Pct(t, "attrpretty", 35)
 	d.Strip = fw.Pct(t, "sessstrip", 25)
 	if d.LB != dc.SessLB && avoiding(avoidCommitSessionLineBreak, "commit_trailing_linebreak_from_session") {
 		if fw.Pct(t, "samelb", 50) {
@@ -333,7 +365,7 @@ func sqlCell(x cell) string {
 
 func checkDialect(dc dialCase) (fw.Outcome, *fw.Violation) {
 	d := dc.D
-	if why := d.malformed(); why != "" || !in(dc.Op, []string{"update", "insert"}) || !in(dc.SessLB, lbs) {
+	if why := d.malformed(); why != "" || !in(dc.Op, []string{"update", "insert"}) || !in(dc.SessLB, lbs) || !in(dc.SessJ, []string{"", "BACKSLASH", "HEX", "HEXALL"}) || strings.Trim(dc.SessW, "WSA") != "" {
 		return fw.Outcome{Discard: true}, nil
 	}
 	after := dc.edited()
@@ -345,8 +377,17 @@ func checkDialect(dc dialCase) (fw.Outcome, *fw.Violation) {
 		return fw.Outcome{Discard: true}, nil
 	}
 	o := after.outcome(false)
-	o.Classes = append(o.Classes, "op:"+dc.Op)
-	o.Fingerprint = fmt.Sprintf("%s|%s|sess:%s,%s|%s", d.dialectString(), dc.Op, dc.SessLB, dc.SessEnc, strings.Join(after.contentClasses(), ","))
+	o.Classes = append(o.Classes, "fmt:"+d.Format, "op:"+dc.Op)
+	o.Fingerprint = fmt.Sprintf("%s|%s|sess:%s,%s,c%v,p%v,%s,%s,ap%v|%s", d.dialectString(), dc.Op, dc.SessLB, dc.SessEnc, dc.SessC, dc.SessP, dc.SessJ, dc.SessW, dc.AttrPretty, strings.Join(after.contentClasses(), ","))
+	if dc.SessC {
+		o.Classes = append(o.Classes, "sess_color")
+	}
+	if dc.AttrPretty && d.isJSON() {
+		o.Classes = append(o.Classes, "attr_pretty:"+d.Format)
+		if dc.SessC {
+			o.Classes = append(o.Classes, "attr_pretty+color")
+		}
+	}
 	r, err := getRunner()
 	if err != nil {
 		return o, fw.Harness("%v", err)
@@ -388,11 +429,24 @@ func checkDialect(dc dialCase) (fw.Outcome, *fw.Violation) {
 	if d.Strip {
 		args = append(args, "--strip-ending-line-break")
 	}
+	if dc.SessC {
+		args = append(args, "--color")
+	}
+	if dc.SessP {
+		args = append(args, "--pretty-print")
+	}
+	if dc.SessJ != "" {
+		args = append(args, "--json-escape", dc.SessJ)
+	}
+	args = append(args, widthArgs(dc.SessW)...)
+	if dc.AttrPretty && d.isJSON() {
+		stmt = fmt.Sprintf("ALTER TABLE %s SET PRETTY_PRINT TO TRUE;\n", tbl) + stmt
+	}
 	res, err := r.exec(dir, args, stmt+"\nCOMMIT;\n")
 	if err != nil {
 		return o, fw.Harness("%v", err)
 	}
-	what := fmt.Sprintf("%s, session line-break %s write-encoding %s; %s", d.dialectString(), dc.SessLB, dc.SessEnc, stmt)
+	what := fmt.Sprintf("%s, session line-break %s write-encoding %s color=%v pretty-print=%v json-escape=%s width=%s; %s", d.dialectString(), dc.SessLB, dc.SessEnc, dc.SessC, dc.SessP, dc.SessJ, dc.SessW, stmt)
 	if spAfter == spellNo {
 		// the new value cannot be spelled in the file's format: the commit must be refused and leave the file as it was
 		o.Classes = append(o.Classes, "unspellable_edit")
@@ -450,7 +504,9 @@ func checkDialect(dc dialCase) (fw.Outcome, *fw.Violation) {
 			}
 		}
 		v.Msg = what + "\nbefore: " + fmt.Sprintf("%q", clip(string(orig))) + "\n" + v.Msg
-		if strings.HasPrefix(v.Sig, "independent_") {
+		if strings.Contains(string(got), "\x1b[") {
+			v.Sig = "color_escape_in_file"
+		} else if strings.HasPrefix(v.Sig, "independent_") {
 			v.Sig = "dialect_" + strings.TrimPrefix(v.Sig, "independent_")
 		}
 		return o, v
@@ -491,15 +547,37 @@ func genOut(t *rapid.T) rtCase {
 		}
 		c.Rows = [][]cell{row}
 	}
-	c.Path = fw.PickU(t, "path", []string{"out", "stdout"})
-	if c.Format == "FIXED" && c.Fixed == "single" {
+	c.Path = fw.PickU(t, "path", []string{"out", "stdout", "create"})
+	if c.Format == "FIXED" && c.Fixed == "single" && c.Path == "stdout" {
 		c.Path = "out" // on stdout csvq adds a line break after single-line data (for the terminal)
+	}
+	if c.Format == "FIXED" && c.Path == "create" {
+		c.Path = "out" // a new table cannot be created in fixed-length format (format follows the file extension)
 	}
 	if c.Format == "JSONL" && avoiding(avoidJSONLDoubleLineBreak, "jsonl_double_trailing_linebreak") {
 		c.Strip = true
 	}
 	if isUTF16(c.Enc) && avoiding(avoidRawTrailingLineBreak, "trailing_linebreak_not_encoded") {
 		c.Strip = true
+	}
+	if c.Path == "create" && c.isJSON() && avoiding(avoidJSONTrailingBackslash, "json_trailing_backslash_unloadable") {
+		// a created table is written with the default escape type (BACKSLASH) whatever --json-escape says
+		fixT := func(s string) string {
+			if strings.HasSuffix(s, `\`) {
+				return s + "z"
+			}
+			return s
+		}
+		for i := range c.Header {
+			c.Header[i] = fixT(c.Header[i])
+		}
+		for _, rows := range [][][]cell{c.Rows, c.Tail} {
+			for _, r := range rows {
+				for j := range r {
+					r[j].S = fixT(r[j].S)
+				}
+			}
+		}
 	}
 	return c
 }
@@ -524,16 +602,25 @@ func sourceJSON(c rtCase) string {
 }
 
 func checkOut(c rtCase) (fw.Outcome, *fw.Violation) {
-	if why := c.malformed(); why != "" || len(c.allRows()) == 0 || !in(c.Path, []string{"out", "stdout"}) {
+	if why := c.malformed(); why != "" || len(c.allRows()) == 0 || !in(c.Path, []string{"out", "stdout", "create"}) || (c.Path == "create" && c.Format == "FIXED") {
 		return fw.Outcome{Discard: true}, nil
 	}
 	o := c.outcome(false)
-	o.Classes = append(o.Classes, "path:"+c.Path)
-	if k := c.knownShape(); k != "" {
-		o.Classes = append(o.Classes, "knownshape:"+k)
+	o.Classes = append(o.Classes, "fmt:"+c.Format, "path:"+c.Path)
+	if c.Color && c.Path != "stdout" {
+		o.Classes = append(o.Classes, "color_to_file")
+		if c.isJSON() && c.Pretty {
+			o.Classes = append(o.Classes, "color+pretty_json_to_file")
+		}
+	}
+	if c.Format == "JSONL" && c.Pretty {
+		o.Classes = append(o.Classes, "jsonl_pretty")
+	}
+	if c.Width != "" {
+		o.Classes = append(o.Classes, "width_flags")
 	}
 	if o.Fingerprint != "" {
-		o.Fingerprint = c.Path + "|" + o.Fingerprint
+		o.Fingerprint = fmt.Sprintf("%s|color=%v|%s|%s", c.Path, c.Color && c.Path != "stdout", c.Width, o.Fingerprint)
 	}
 	r, err := getRunner()
 	if err != nil {
@@ -549,11 +636,19 @@ func checkOut(c rtCase) (fw.Outcome, *fw.Violation) {
 	if c.Path == "out" {
 		args = append(args, "--out", name)
 	}
-	res, err := r.exec(dir, args, "SELECT * FROM `src.json`;")
+	prog := "SELECT * FROM `src.json`;"
+	if c.Path == "create" {
+		prog = "CREATE TABLE " + val.QuoteIdent(name) + " AS SELECT * FROM `src.json`;\nCOMMIT;\n"
+	}
+	res, err := r.exec(dir, args, prog)
 	if err != nil {
 		return o, fw.Harness("%v", err)
 	}
-	d := c.dialectString() + " to " + c.Path
+	d := fmt.Sprintf("%s color=%v width=%s to %s", c.dialectString(), c.Color && c.Path != "stdout", c.Width, c.Path)
+	sigc := c // for signatures: a created JSON table is written with the default escape type
+	if c.Path == "create" && c.isJSON() {
+		sigc.JsonEscape = "BACKSLASH"
+	}
 	fileBytes, ferr := os.ReadFile(filepath.Join(dir, name))
 	sp, why := c.spellable()
 	if res.Code != 0 {
@@ -571,7 +666,7 @@ func checkOut(c rtCase) (fw.Outcome, *fw.Violation) {
 		return o, nil
 	}
 	var data []byte
-	if c.Path == "out" {
+	if c.Path == "out" || c.Path == "create" {
 		if res.Stdout != "" {
 			return o, fw.V(c.sig("out_stdout_not_empty"), "%s: --out given but stdout has %q", d, clip(res.Stdout))
 		}
@@ -590,10 +685,39 @@ func checkOut(c rtCase) (fw.Outcome, *fw.Violation) {
 		o.Classes = append(o.Classes, "over64k")
 	}
 	base := "out"
+	if c.Path == "create" {
+		base = "create"
+	}
 	if sp == spellNo {
 		base = "accepted_unspellable"
+	} else if c.Path == "create" {
+		// The manual does not say which session flags shape a created file: any mix of the
+		// session's export settings and the defaults is accepted, as long as ONE dialect reads
+		// the bytes as the table (and csvq then loads it under that dialect's import options).
+		var first *fw.Violation
+		found := false
+		for _, cand := range createCandidates(c) {
+			v := verifyBytes(cand, data, true)
+			if v == nil {
+				c, found = cand, true
+				break
+			}
+			if first == nil {
+				first = v
+			}
+		}
+		if !found {
+			first.Msg = "created table: " + first.Msg
+			if strings.Contains(string(data), "\x1b[") {
+				first.Sig = "color_escape_in_file"
+			}
+			return o, first
+		}
 	} else if v := verifyBytes(c, data, true); v != nil {
 		v.Msg = "to " + c.Path + ": " + v.Msg
+		if c.Path == "out" && strings.Contains(string(data), "\x1b[") {
+			v.Sig = "color_escape_in_file"
+		}
 		return o, v
 	}
 	back, lerr, err := reloadCLI(r, dir, c, name)
@@ -607,19 +731,70 @@ func checkOut(c rtCase) (fw.Outcome, *fw.Violation) {
 				return o, fw.V("jsonl_double_trailing_linebreak", "%s: the output ends with two line breaks and does not load: %s\noutput: %q", d, lerr, clip(string(data)))
 			}
 		}
-		return o, fw.V(c.sig(base+"_reload_error"), "%s: written with exit 0 (%s) but a fresh csvq cannot load it: %s\noutput: %q", d, why, lerr, clip(string(data)))
+		return o, fw.V(sigc.sig(base+"_reload_error"), "%s: written with exit 0 (%s) but a fresh csvq cannot load it: %s\noutput: %q", d, why, lerr, clip(string(data)))
 	}
 	if diff := compareLoaded(c, back, false); diff != "" {
-		return o, fw.V(c.sig(base+"_reload_mismatch"), "%s: %s (%s)\noutput: %q", d, diff, why, clip(string(data)))
+		return o, fw.V(sigc.sig(base+"_reload_mismatch"), "%s: %s (%s)\noutput: %q", d, diff, why, clip(string(data)))
 	}
 	return o, nil
+}
+
+// createCandidates: the dialects a created table may have: per setting the
+// session's value or csvq's default (session value first).
+func createCandidates(c rtCase) []rtCase {
+	out := []rtCase{c}
+	vary := func(f func(*rtCase) bool) {
+		n := len(out)
+		for i := 0; i < n; i++ {
+			x := out[i]
+			if f(&x) {
+				out = append(out, x)
+			}
+		}
+	}
+	vary(func(x *rtCase) bool {
+		if x.Format != "CSV" || x.delim() == ',' {
+			return false
+		}
+		x.Delim = ","
+		return true
+	})
+	vary(func(x *rtCase) bool {
+		if x.isJSON() || x.Enc == "UTF8" {
+			return false
+		}
+		x.Enc = "UTF8"
+		return true
+	})
+	vary(func(x *rtCase) bool {
+		if !x.isCSV() || !x.WithoutHeader {
+			return false
+		}
+		x.WithoutHeader = false
+		return true
+	})
+	vary(func(x *rtCase) bool {
+		if x.LB == "LF" {
+			return false
+		}
+		x.LB = "LF"
+		return true
+	})
+	vary(func(x *rtCase) bool {
+		if !x.EncloseAll {
+			return false
+		}
+		x.EncloseAll = false
+		return true
+	})
+	return out
 }
 
 func TestC02OutPaths(t *testing.T) {
 	fw.Run(t, fw.Spec[rtCase]{
 		ID: "C02", Name: "out_paths", Quick: 400, Thorough: 8000,
 		Gen: genOut, Check: checkOut,
-		Rule:        "the tables and option vectors of roundtrip_inproc (>= 1 record; 6% past 4 KiB / 64 KiB), loaded by the real binary from a JSON source file and written with -f FORMAT and the export options to --out FILE or to stdout; oracle: a non-zero exit leaves the --out file absent and stdout empty (and must not happen for a spellable table); otherwise the bytes satisfy the independent readers including csvq's own ending line break (decodes in the encoding, every line break is the configured one) and a fresh csvq process loads the same table from them with the matching import options; non-trivial as in roundtrip_inproc, distinct by (path, dialect, content classes)",
-		Assumptions: []string{"single-line fixed-length data is only written to --out (on stdout csvq appends a line break for the terminal)", "the source is a JSON file with backslashes spelled \\u005C (loader defect json_trailing_backslash_unloadable)"},
+		Rule:        "the tables and option vectors of roundtrip_inproc (>= 1 record; 6% past 4 KiB / 64 KiB), loaded by the real binary from a JSON source file and written with -f FORMAT and the export options to --out FILE, to stdout, or into a new table (CREATE TABLE file AS SELECT + COMMIT; CSV/TSV/LTSV/JSON/JSONL by extension), with --color (file destinations, 35%), --pretty-print (JSON and JSON Lines), --json-escape, --east-asian-encoding/--count-diacritical-sign/--count-format-code as further session flags; oracle: a non-zero exit leaves the --out file absent and stdout empty (and must not happen for a spellable table); otherwise the bytes satisfy the independent readers including csvq's own ending line break (decodes in the encoding, every line break is the configured one) and a fresh csvq process loads the same table from them with the matching import options; non-trivial as in roundtrip_inproc, distinct by (path, dialect, content classes)",
+		Assumptions: []string{"a created table may follow, per setting, the session's export flag or the default (the manual is silent): it must read back under one such dialect", "--color is not passed on the stdout path (colour there is what the user asked for); a file must never contain escape sequences", "single-line fixed-length data is only written to --out (on stdout csvq appends a line break for the terminal)", "the source is a JSON file with backslashes spelled \\u005C (loader defect json_trailing_backslash_unloadable)"},
 	})
 }
